@@ -21,6 +21,9 @@ type Check[C any] struct {
 	Name string // check name, e.g. "C01.msg"
 	Gen  func(*rapid.T) C
 	Eval func(C) Result // pure function: the oracle
+
+	colOnce sync.Once
+	col     *Collector
 }
 
 type replayFn func(raw json.RawMessage) (Result, error)
@@ -46,7 +49,10 @@ func Register[C any](c *Check[C]) *Check[C] {
 	return c
 }
 
-func (c *Check[C]) coll() *Collector { return getCollector(c.Prop, c.Name) }
+func (c *Check[C]) coll() *Collector {
+	c.colOnce.Do(func() { c.col = getCollector(c.Prop, c.Name) })
+	return c.col
+}
 
 // RunRapid drives the check with rapid-generated cases. The number of cases
 // and the PRNG value come from the -rapid.* flags set by the driver.
